@@ -22,6 +22,18 @@ def _rotation(D, rot_seed):
 
 
 def make_landscape(spec, D):
+    """`fmul` (optional): multiplies every value - the magnitude of the target (1e-24 .. 1e12) is a
+    swarm dimension of its own; the minimiser and the ordering of values are unchanged."""
+    mul = spec.get("fmul")
+    if mul not in (None, 1, 1.0):
+        inner = make_landscape({k: v for k, v in spec.items() if k != "fmul"}, D)
+        mul = float(mul)
+
+        def f(x):
+            return mul * inner(x)
+        if hasattr(inner, "_adv_state"):
+            f._adv_state = inner._adv_state
+        return f
     fam = spec["family"]
     if fam == "quad":
         c = np.asarray(spec["c"], dtype=float)
